@@ -78,7 +78,18 @@ def straddle(us, labels):
     return len({r[L] // US_DAY for L in set(labels) | {"UTC"}}) > 1
 
 
-JD_QUANTUM = 4.66e-10 * 86400  # one ulp of a Julian date held in a double: 40 us
+JD_QUANTUM = 2.0 ** -31 * 86400  # one ulp of a Julian date (2.4e6 days) held in a double: 40 us
+JD_TURN = 2 * math.pi * 1.00273790935 * 2.0 ** -31  # Earth rotation during one such ulp [rad]
+
+
+def _rot3_state(angle):
+    """6x6 passive rotation about z applied to position and velocity alike."""
+    c, s_ = math.cos(angle), math.sin(angle)
+    m = np.array([[c, s_, 0.0], [-s_, c, 0.0], [0.0, 0.0, 1.0]])
+    out = np.zeros((6, 6))
+    out[:3, :3] = m
+    out[3:, 3:] = m
+    return out
 
 
 def compare_states(what, got, ref, dts, rate=0.0, kind="state-differs", extra_pos=0.0, extra_vel=None, **data):
@@ -257,6 +268,10 @@ def check_prop(case):
     extra, extra_vel = 0.0, None
     if kind == "sgp4" and inexact(Y):
         dts += 1e-8 * 86400
+    if kind == "sgp4" and inexact(X):
+        # the sgp4 package turns the calendar fields into a Julian date (one ulp = 40 us): a 1 us
+        # relabelling of the argument may flip its last bit
+        dts += 1.5 * JD_QUANTUM
     if kind in ("sun", "moon"):
         # position from the Julian century of a Julian date (40 us quantum, reached through a 1 us
         # relabelling); velocity by central difference over +-5 d (Sun) / +-1 d (Moon)
@@ -317,27 +332,62 @@ def check_frames(case):
         out[L] = (np.asarray(res.base, float), res.date, d)
     g, gdate, d = out[X]
     r, rdate, _ = out["UTC"]
-    rate = OMEGA_E if ({src, dst} & ROTATING) else 1e-10
+    rotating = bool({src, dst} & ROTATING)
+    rate = OMEGA_E if rotating else 1e-10
     dts = 2e-6 if inexact(X) else 0.0
-    # the sidereal angle is computed from a UT1 Julian date held in a double (one ulp = 40 us).  The UT1
-    # reading reached from two labels may differ by 1 us (UT1-UTC is tabulated to 0.1 us and rounded once
-    # per path), which flips the last bit of that Julian date in 2.5 % of such cases and turns the
-    # rotating frames by omega x 40 us: that quantum is the resolution of the library's Earth rotation
     rr = float(np.linalg.norm(r[:3]))
     vv = float(np.linalg.norm(r[3:]))
-    jd = 1.5 * JD_QUANTUM if rate == OMEGA_E else 0.0
-    extra_pos, extra_vel = OMEGA_E * rr * jd, OMEGA_E * (vv + OMEGA_E * rr) * jd
-    if not jd and (src in IAU2010) != (dst in IAU2010):
-        # inertial frames of the two families are joined through ITRF: the route turns by the Earth
-        # rotation angle and back by GMST, which is evaluated in seconds of time near 1e9 (one ulp =
-        # 1.2e-7 s = 8.7e-12 rad): the 40 us quantum above cancels only to that resolution
-        extra_pos, extra_vel = 3e-11 * rr, 3e-11 * vv
-    ratio = compare_states(f"{src}->{dst} at {d}", g, r, dts, rate=rate, kind="frame-label-dependent",
-                           extra_pos=extra_pos, extra_vel=extra_vel, src=src, dst=dst)
+    extra_pos = extra_vel = 0.0
+    quantum = False
+    if rotating or (src in IAU2010) != (dst in IAU2010):
+        # GMST is evaluated in seconds of time near 1e9 (one ulp = 1.2e-7 s = 8.7e-12 rad); the inertial
+        # frames of the two families are joined through ITRF (Earth rotation angle there, GMST back)
+        extra_pos, extra_vel = 3e-11 * rr, 3e-11 * vv + 3e-11 * OMEGA_E * rr
+    what = f"{src}->{dst} at {d}"
+    try:
+        ratio = compare_states(what, g, r, dts, rate=rate, kind="frame-label-dependent",
+                               extra_pos=extra_pos, extra_vel=extra_vel, src=src, dst=dst)
+    except Violation as first:
+        # The sidereal angle / Earth rotation angle come from a UT1 Julian date held in a double: one
+        # ulp is 2^-31 day = 40 us.  The UT1 reading reached from two labels may differ by 1 us (UT1-UTC
+        # is tabulated to 0.1 us and rounded once per path), which flips the last bit of that Julian
+        # date in ~2.5 % of such cases.  That is the resolution of the library's Earth rotation: a
+        # difference that is *exactly* one such quantum of rotation about the pole is accepted,
+        # anything else is not (so millimetre-level label effects in ITRF/PEF/TIRF stay visible).
+        if not rotating:
+            raise
+        quantum = True
+        ratio = None
+        for k in (1, -1):
+            turn = _rot3_state(k * JD_TURN)
+            if dst in ROTATING and src not in ROTATING:
+                cand_g, cand_r = turn @ g, r
+            elif src in ROTATING and dst not in ROTATING:
+                sv = StateVector(turn @ np.asarray(cart, float), date_of(us, "UTC"), "cartesian", src)
+                cand_g, cand_r = g, np.asarray(sv.copy(frame=dst).base, float)
+            else:
+                break
+            try:
+                ratio = compare_states(what, cand_g, cand_r, dts, rate=rate, kind="frame-label-dependent",
+                                       extra_pos=extra_pos, extra_vel=extra_vel, src=src, dst=dst)
+                break
+            except Violation:
+                continue
+        if ratio is None:
+            if src in ROTATING and dst in ROTATING:
+                # both ends turn (GMST and ERA from the same Julian date): the quanta cancel to the
+                # difference of the two rates; only the loose bound is available here
+                ratio = compare_states(what, g, r, dts + 1.5 * JD_QUANTUM * 3e-3, rate=rate,
+                                       kind="frame-label-dependent", extra_pos=extra_pos, extra_vel=extra_vel,
+                                       src=src, dst=dst)
+            else:
+                raise first
     same_instant(f"{src}->{dst}", gdate, rdate, (X,))
     cls = [f"eop:{t3.cfg()}", f"X:{X}", f"{src}->{dst}"]
     if straddle(us, (X,)):
         cls.append("labels-straddle-0h")
+    if quantum:
+        cls.append("one-ulp-of-JD-accepted")
     if abs((us + 69 * US) // US_DAY + iers.BASE_MJD - gd.EQUINOX_SWITCH_MJD) <= 1 and straddle(us, (X,)):
         cls.append("straddles-1997-02-27")
     return dict(nt=src != dst, cls=cls, ratio=ratio)
@@ -561,7 +611,8 @@ def check_ccsds(case):
     if len(got) != len(dates):
         raise Violation("ccsds-count", f"{what}: {len(got)} dates read back, {len(dates)} written")
     mixed = len(set(labels)) > 1
-    tol = 2 if (mixed and inexact(*labels)) else 0
+    # a UT1 / TDB date prints a reading that may be 1 us off the one it was built from (C03, 2 us)
+    tol = 2 if inexact(*labels) else 0
     worst = 0
     for k, (g, d) in enumerate(zip(got, dates)):
         off = t3.td_us(g - d)
